@@ -15,9 +15,22 @@ def two_histories(rng, flen):
     if cfgs[0]["mac"] == cfgs[1]["mac"]:
         cfgs[1]["mac"] = G.rand_mac(rng)
     hs = []
+    shared = G.Net(rng, cfgs[0]["mac"])
+    same_lan = rng.random() < 0.6
     for c in cfgs:
         net = G.Net(rng, c["mac"])
-        hs.append(G.session_history(rng, net, c["mtu"], flen, p_mut=0.1, p_noise=0.03, max_emit=2))
+        if same_lan:                         # both NICs on one LAN: the same mappers and neighbours reach both
+            net.mappers, net.bridges, net.strangers = shared.mappers, shared.bridges, shared.strangers
+        h = G.session_history(rng, net, c["mtu"], flen, p_mut=0.1, p_noise=0.03, max_emit=2)
+        if same_lan:
+            # the same stations probe both interfaces (identical Ethernet/real sources), then the mapper asks
+            extra = []
+            for s in shared.strangers[:3]:
+                extra.append(W.probe(c["mac"], s, c["mac"], s, train=False))
+            extra.append(G.f_query(rng, net, 0))
+            pos = rng.randrange(len(h) + 1)
+            h = h[:pos] + [G.f_discover(rng, net, m=0, tos=0)] + extra + h[pos:]
+        hs.append(h)
     return cfgs, hs
 
 
